@@ -404,59 +404,62 @@ pub fn run(tier: Tier) -> Report {
         }
     }
     // standard mode: a picture that stops early (fewer macroblocks than its format holds) and is
-    // terminated by the next picture's start code. The decoder may refuse it; if it accepts it, the
-    // picture must equal the one decoded from its own reader and the reader must be left at the
-    // following picture, which must then decode as from its own reader.
+    // terminated by the next picture's start code - the resynchronisation probe of the macroblock
+    // loop. Whenever the decoder accepts such a picture from its own reader, the same bytes in a
+    // shared reader must give the same picture and leave the reader at the following picture, which
+    // must then decode as from its own reader (every padding length, several temporal references
+    // of the following picture, since the probe reads the bits right behind the start code).
     {
         let mode = Mode::StdCustom;
-        let mut work: Vec<(u16, u16, usize, usize, u8)> = vec![];
+        let mut work: Vec<(u16, u16, usize, usize, u8, u8)> = vec![];
         for &(w, h, total) in &[(32u16, 16u16, 2usize), (48, 32, 6)] {
             for sent in 0..total {
                 for pei in 0..8usize {
                     for next_type in [0u8, 1] {
-                        work.push((w, h, sent, pei, next_type));
+                        for next_tr in [0u8, 9, 128, 255] {
+                            work.push((w, h, sent, pei, next_type, next_tr));
+                        }
                     }
                 }
             }
         }
         let n_early = std::sync::atomic::AtomicU64::new(0);
-        let refused = std::sync::atomic::AtomicU64::new(0);
-        work.par_iter().for_each(|&(w, h, sent, pei, next_type)| {
+        let own_refused = std::sync::atomic::AtomicU64::new(0);
+        work.par_iter().for_each(|&(w, h, sent, pei, next_type, next_tr)| {
             let ihdr = hdr(mode, w, h, 0, 250, 0, 0);
             let ipic = Pic { mbs: body(&ihdr, 0, 1), hdr: ihdr };
             let shdr_ = hdr(mode, w, h, 1, 7, pei, 0);
             let mut mbs = body(&shdr_, 0, sent + pei);
             mbs.truncate(sent);
             let short = Pic { mbs, hdr: shdr_ };
-            let nhdr = hdr(mode, w, h, next_type, 9, 0, 0);
+            let nhdr = hdr(mode, w, h, next_type, next_tr, 0, 0);
             let next = Pic { mbs: body(&nhdr, 1, 3), hdr: nhdr };
             let (bi, bs, bn) = (encode_bytes(&ipic), encode_bytes(&short), encode_bytes(&next));
             let concat: Vec<u8> = bs.iter().chain(bn.iter()).copied().collect();
-            let replay = json!({"kind": "stream", "options": 0, "init": [crate::bits::hex(&bi)], "concatenated": crate::bits::hex(&concat), "pictures": ["early-ended P", "next"], "note": format!("{w}x{h}: {sent} macroblocks sent, {pei} PEI bytes")});
+            let replay = json!({"kind": "stream", "options": 0, "init": [crate::bits::hex(&bi)], "concatenated": crate::bits::hex(&concat), "pictures": ["early-ended P", "next"], "note": format!("{w}x{h}: {sent} macroblocks sent, {pei} PEI bytes, next picture type {next_type} tr {next_tr}")});
             let mut a = H263State::new(options_from_bits(0));
             let mut b = H263State::new(options_from_bits(0));
             let _ = decode_bytes(&mut a, &bi);
             let _ = decode_bytes(&mut b, &bi);
-            let mut rd = H263Reader::from_source(&concat[..]);
             n_early.fetch_add(1, std::sync::atomic::Ordering::Relaxed);
+            let ob = decode_bytes(&mut b, &bs);
+            if !ob.is_ok() {
+                own_refused.fetch_add(1, std::sync::atomic::Ordering::Relaxed);
+                return;
+            }
+            let mut rd = H263Reader::from_source(&concat[..]);
             match decode_with(&mut a, &mut rd) {
                 Outcome::Panic(p) => rep.violation(&panic_sig(&p), format!("early-ended picture before another one: panic {p}"), replay),
-                Outcome::Err(_) => {
-                    refused.fetch_add(1, std::sync::atomic::Ordering::Relaxed);
-                }
+                Outcome::Err(e) => rep.violation("C15/shared-reader-rejects-early-ended-picture", format!("{w}x{h} picture with {sent} macroblocks sent ({pei} PEI bytes): decodes from its own reader, fails with {e} when the next picture (tr {next_tr}) follows in the same reader"), replay),
                 Outcome::Ok => {
-                    let ob = decode_bytes(&mut b, &bs);
-                    if ob.is_ok() && last_snap(&a) != last_snap(&b) {
+                    if last_snap(&a) != last_snap(&b) {
                         rep.violation("C15/early-ended-picture-differs", format!("{w}x{h} picture with {sent} macroblocks sent: accepted from the shared reader, but differs from the same bytes in their own reader"), replay);
                         return;
                     }
                     let o2 = decode_with(&mut a, &mut rd);
                     let o2b = decode_bytes(&mut b, &bn);
-                    if !ob.is_ok() {
-                        return;
-                    }
                     if o2.is_ok() != o2b.is_ok() || (o2.is_ok() && last_snap(&a) != last_snap(&b)) {
-                        rep.violation("C15/picture-after-early-ended-picture", format!("{w}x{h}: the picture with {sent} macroblocks sent ({pei} PEI bytes) was accepted from the shared reader; the following picture then gives {} there and {} from its own reader", o2.short(), o2b.short()), replay);
+                        rep.violation("C15/picture-after-early-ended-picture", format!("{w}x{h}: the picture with {sent} macroblocks sent ({pei} PEI bytes) was accepted from the shared reader; the following picture (tr {next_tr}) then gives {} there and {} from its own reader", o2.short(), o2b.short()), replay);
                     }
                 }
             }
@@ -464,7 +467,7 @@ pub fn run(tier: Tier) -> Report {
         rep.add_transitions(2 * n_early.load(std::sync::atomic::Ordering::Relaxed));
         rep.add_states(n_early.load(std::sync::atomic::Ordering::Relaxed));
         rep.extra("early_ended_then_next_sequences", json!(n_early.load(std::sync::atomic::Ordering::Relaxed)));
-        rep.extra("early_ended_pictures_refused", json!(refused.load(std::sync::atomic::Ordering::Relaxed)));
+        rep.extra("early_ended_pictures_refused_in_their_own_reader", json!(own_refused.load(std::sync::atomic::Ordering::Relaxed)));
     }
     // larger pictures (80 macroblocks) ending in a run of T not-coded macroblocks, every T, followed
     // by another picture in the same reader (run-length treatment of skipped macroblocks)
@@ -506,7 +509,7 @@ pub fn run(tier: Tier) -> Report {
         rep.violation("C15/machinery-padding-coverage", format!("picture alphabet does not realise every padding length 0..7: {pads:?}"), json!({"kind": "machinery"}));
     }
     rep.set_rule(&format!(
-        "all sequences of 1..={maxlen} pictures from an alphabet of type {{I,P,D}} x 8 PEI counts (every padding length 0..7) x bodies (last macroblock coded with AC data / not coded / with MCBPC stuffing codewords) per size, from a fresh decoder and after an I picture, in Sorenson and standard mode: decoder A reads the concatenation from one reader, decoder B gets one reader per picture; A, B and the reference decoder must agree after every call and A's reader must end within 8 bits of the end; plus pictures ending in each kind of final syntax element (every TCOEF form incl. each escape width, INTRADC, COD, each MVD shape, after DQUANT, position 63) at every padding length 0..7, alone / before / after another picture; standard-mode pictures that stop early before the next start code (if accepted: equal to their own-reader decode, and the next picture decodes); 80-macroblock pictures ending in every number of not-coded macroblocks, followed by another picture; non-trivial = sequences of two or more pictures"
+        "all sequences of 1..={maxlen} pictures from an alphabet of type {{I,P,D}} x 8 PEI counts (every padding length 0..7) x bodies (last macroblock coded with AC data / not coded / with MCBPC stuffing codewords) per size, from a fresh decoder and after an I picture, in Sorenson and standard mode: decoder A reads the concatenation from one reader, decoder B gets one reader per picture; A, B and the reference decoder must agree after every call and A's reader must end within 8 bits of the end; plus pictures ending in each kind of final syntax element (every TCOEF form incl. each escape width, INTRADC, COD, each MVD shape, after DQUANT, position 63) at every padding length 0..7, alone / before / after another picture; standard-mode pictures that stop early before the next start code (whenever their own reader accepts them the shared reader must too, with the same picture, and the next picture decodes); 80-macroblock pictures ending in every number of not-coded macroblocks, followed by another picture; non-trivial = sequences of two or more pictures"
     ));
     rep.assume("pictures of one sequence share a size (prediction across sizes is outside the valid-stream premise)");
     rep
